@@ -66,7 +66,9 @@ def make_species(I, repo, name, refs, comp, dname, other=None):
     """a species made by ``StatMech(name=, <five opaque modes>, elements=, references=)``.  Its composition under the
     descriptor the references are described by is ``comp``; under the other name it has ``other`` or nothing at all:
     elements=None is the default of the class, and a dictionary of groups exists only on species it was assigned to."""
-    modes = {a_: opaque_obj(I, '%s.%s' % (name, a_), {q_: ('T',) for q_ in MODE_Q}) for a_ in MODES}
+    # the translational mode is the one a pressure / volume is meant for; the others take the temperature
+    modes = {a_: opaque_obj(I, '%s.%s' % (name, a_),
+                            {q_: ('T', 'P', 'V') if a_ == 'trans_model' else ('T',) for q_ in MODE_Q}) for a_ in MODES}
     kw = dict(modes, name=name, references=refs)
     if dname == 'elements':
         kw['elements'] = comp
@@ -140,7 +142,9 @@ def solver_model(I):
         # (solution, residuals, rank, singular values): only the solution has a model; whatever the code does with the
         # other three is decided on uninterpreted numbers (a comparison of the rank is refused, not guessed)
         x_ = solution(I_, M, y)
-        return ListV([x_] + [I_.D.sym('lstsq%d.%s' % (sols['calls'], k_)) for k_ in ('residuals', 'rank', 'sv')])
+        res_ = ListV([x_] + [I_.D.sym('lstsq%d.%s' % (sols['calls'], k_)) for k_ in ('residuals', 'rank', 'sv')])
+        res_.is_tuple = True            # what np.linalg.lstsq returns is a tuple
+        return res_
 
     def solve(I_, fr, args, kwargs, nd):
         M, y = operands('solve', args, kwargs, nd)
@@ -311,12 +315,15 @@ def check(run, repo):
         'attributes. get_CvoR/CpoR/UoRT/SoR are 0 and GoRT = HoRT - SoR; get_HoRT with '
         'symbolic offsets and composition is -sum offset[d]*n_d * T_ref/T: homogeneous linear in the composition, '
         'T*HoRT free of T, descriptors absent from the references only warn; a second References object with other '
-        'offsets in the same run gives its own adjustment. Through a species (references described '
+        'offsets in the same run gives its own adjustment; T_ref left to its default is 298.15 K (arguments handed '
+        'over positionally). Through a species (references described '
         'by elements or by groups; the species has the composition the references are described by and NOT the other '
         'one - no elements in the groups case): HoRT/GoRT are shifted by that amount at the temperature the species '
         'itself is evaluated at (T, or the T of its <name>_kwargs entry), H/G with units by -(sum offset*n)*R*T_ref, '
         'S/Cp/Cv (dimensionless and with units) not at all, and with use_references=False no offset is left in the '
-        'value. fit_HoRT_offset is interpreted through its real code (descriptor matrix, reference temperatures, '
+        'value; the same with a pressure / a pressure and a volume among the conditions (the translational mode is '
+        'declared to take T, P, V) and, with verbose=True, contribution by contribution (the sixth entry is the '
+        'adjustment, the others do not change). fit_HoRT_offset is interpreted through its real code (descriptor matrix, reference temperatures, '
         'right-hand side) with np.linalg.lstsq as an uninterpreted solver that returns fresh symbolic offsets on every '
         'call and accepts no truncation threshold (rcond absent/None/-1/<=1e-10); np.linalg.solve is the exact solver '
         '(LinAlgError for a singular or non-square matrix). The solver may be handed a constant multiple k of '
@@ -329,7 +336,8 @@ def check(run, repo):
         'references=refs right after the first fit is, after every later fit, shifted by the offsets of that fit. The '
         'same is decided again after every step '
         'of: append a reference with a descriptor new to the set + refit, pop + refit, remove + refit, extend by two '
-        '(one with a new descriptor) + refit - against the rule\'s own list of species: shape of the system, one '
+        '(one with a new descriptor; handed over as a list or as a tuple) + refit, refs[1] = another species + refit, '
+        'pop(0) + refit - a change of the set that raises is a finding - against the rule\'s own list of species: shape of the system, one '
         'offset per current descriptor equal to the solution of the last solve, T_ref, rows, right-hand side, '
         'reproduction. Reference temperatures differing by 0.01 K: the fit succeeds, each species is evaluated at '
         'its own T_ref and T_ref becomes the mean. Rank-deficient reference sets with concrete counts (C2H4|C3H6 over '
@@ -399,6 +407,13 @@ def check(run, repo):
         run.check(same(H, want_), 'REF.apply', 'References.get_HoRT', 'two References objects, ' + tag,
                   'adjustment is %s, expected %s: -(sum offset*n) * T_ref/T with the offsets and the reference '
                   'temperature of the object that is asked' % (show(H), show(want_)), owner.module, fn)
+    # T_ref left to its default - documented as 298.15 K -, composition and temperature handed over positionally
+    r3 = built(I.construct(ci, [], {'offset': DictV({'A': oA, 'B': oB})}, name='refs3'), 'References(offset=)')
+    H = I.call_method(r3, 'get_HoRT', [DictV({'A': nA, 'B': nB}), T], {})
+    run.check(same(H, -(oA * nA + oB * nB) * C(Fr('298.15')) / T), 'REF.apply', 'References.get_HoRT',
+              'default reference temperature',
+              'adjustment of References(offset=...) without T_ref is %s, expected -(sum offset*n) * 298.15 K/T'
+              % show(H), owner.module, fn)
     # the counts of a composition are numbers of any kind: compositions counted with numpy carry np.int64
     # (dict(zip(*np.unique(symbols, return_counts=True)))), which is neither a Python int nor a Python float
     mA, mB = D.sym('mA'), D.sym('mB')
@@ -442,6 +457,45 @@ def check(run, repo):
                       sample='StatMech.%s with References(descriptor=%r): shift = -(sum offset*n)*T_ref/T' % (q, dname))
             if both:
                 continue        # the rest is decided on the species that has the described composition only
+            # a gas is asked with its pressure (and volume) as well - sp.get_HoRT(T=500., P=1.) is the normal call:
+            # conditions the references have no use for change nothing in what they add
+            for extra in (('P',), ('P', 'V')):
+                cond = dict({'T': T2}, **{k_: D2.sym(k_) for k_ in extra})
+                with_refs = I2.call_method(sp, q, [], dict(cond))
+                without = I2.call_method(sp, q, [], dict(cond, use_references=False))
+                ok = isinstance(with_refs, Rat) and isinstance(without, Rat) and same(with_refs - without, want_adj)
+                run.check(ok, 'REF.apply', 'StatMech.' + q,
+                          'references described by %s, conditions T,%s' % (dtag, ','.join(extra)),
+                          'a species evaluated with %s shifts %s by %s, expected -(sum offset*n) * T_ref/T whatever '
+                          'other conditions are given' % (
+                              ', '.join('%s=%s' % (k_, k_) for k_ in sorted(cond)), q[4:],
+                              show(with_refs - without, 160) if isinstance(with_refs, Rat) and isinstance(without, Rat)
+                              else show(with_refs if not isinstance(with_refs, Rat) else without, 120)),
+                          owner2.module, fn2,
+                          sample='StatMech.%s(T, %s) with references: shift = -(sum offset*n)*T_ref/T'
+                          % (q, ', '.join(extra)))
+            # verbose=True: the contributions one by one, documented as [trans, vib, rot, elec, nucl, references,
+            # misc models]: the adjustment is the sixth entry, it is 0 with the references switched off, and no other
+            # entry knows about the references (dimensionless and in energy units)
+            for qv, kw_v, want_v in ((q, {}, want_adj),
+                                     ({'get_HoRT': 'get_H', 'get_GoRT': 'get_G'}[q], {'units': 'J/mol'}, None)):
+                if want_v is None:
+                    Rv = I2.native['pmutt.constants.R'](I2, None, ['J/mol/K'], {}, None)
+                    want_v = C(0)
+                    for k, nk in comp[dname].d.items():
+                        want_v = want_v - off.d[k] * nk * Tr2 * Rv
+                vw = I2.call_method(sp, qv, [], dict(kw_v, T=T2, verbose=True))
+                vo = I2.call_method(sp, qv, [], dict(kw_v, T=T2, verbose=True, use_references=False))
+                ok = isinstance(vw, ListV) and isinstance(vo, ListV) and len(vw) == len(vo) and len(vw) >= 6 and \
+                    all(isinstance(x_, Rat) for x_ in vw.items + vo.items) and \
+                    same(vw.items[5], want_v) and same(vo.items[5], C(0)) and \
+                    all(same(a_, b_) for i_, (a_, b_) in enumerate(zip(vw.items, vo.items)) if i_ != 5)
+                ov_, fv_ = repo.find_method(sci, qv)
+                run.check(ok, 'REF.apply', 'StatMech.' + qv, 'references described by %s, verbose' % dtag,
+                          '%s(T, verbose=True) gives %s with references and %s without; expected the same '
+                          'contributions of the modes in both, and %s / 0 as the sixth entry (references)'
+                          % (qv, show(vw, 200), show(vo, 200), show(want_v, 120)), ov_.module, fv_,
+                          sample='StatMech.%s(T, verbose=True)[5] == adjustment of the references' % qv)
             # the species is given its own temperature the documented way (<name>_kwargs); an entry for another
             # species is not its business: modes and adjustment are both evaluated at the species' temperature, so the
             # energy added is still -(sum offset*n)*R*T_ref whatever T is
@@ -477,6 +531,19 @@ def check(run, repo):
                           qu[4:], units, show(with_refs - without, 160) if isinstance(with_refs, Rat)
                           and isinstance(without, Rat) else show(with_refs, 120)), o3.module, f3,
                       sample='StatMech.%s(T, units) with references: shift = -(sum offset*n)*R*T_ref' % qu)
+            # ... and with the pressure (and volume) of a gas among the conditions
+            cond = dict({'T': T2, 'units': units},
+                        **{k_: D2.sym(k_) for k_ in (('P',) if q == 'get_HoRT' else ('P', 'V'))})
+            with_P = I2.call_method(sp, qu, [], dict(cond))
+            without_P = I2.call_method(sp, qu, [], dict(cond, use_references=False))
+            ok = isinstance(with_P, Rat) and isinstance(without_P, Rat) and same(with_P - without_P, want_E)
+            run.check(ok, 'REF.apply', 'StatMech.' + qu, 'references described by %s, conditions %s'
+                      % (dtag, ','.join(sorted(set(cond) - {'units'}))),
+                      'a species with references evaluated with %s shifts %s(units=%r) by %s, expected '
+                      '-(sum offset*n)*R*T_ref' % (
+                          ', '.join(sorted(set(cond) - {'units'})), qu[4:], units,
+                          show(with_P - without_P, 160) if isinstance(with_P, Rat) and isinstance(without_P, Rat)
+                          else show(with_P if not isinstance(with_P, Rat) else without_P, 120)), o3.module, f3)
             left = [str(a_) for a_ in atoms_of(without) if str(a_).startswith('off_')] if isinstance(without, Rat) \
                 else ['?']
             run.check(not left, 'FWD.switch', 'StatMech.' + qu, 'use_references=False, %s' % dtag,
@@ -485,16 +552,20 @@ def check(run, repo):
         if both:
             continue
         # nothing is added to S and the heat capacities, dimensionless or with units
-        for q, units in (('get_SoR', None), ('get_CpoR', None), ('get_CvoR', None), ('get_S', 'J/mol/K'),
-                         ('get_Cp', 'J/mol/K'), ('get_Cv', 'J/mol/K')):
-            kw_ = {'T': T2}
+        # (the entropy of a gas is asked with its pressure: get_SoR(T=, P=) / get_S(T=, P=, units=))
+        for q, units, extra in (('get_SoR', None, ()), ('get_CpoR', None, ()), ('get_CvoR', None, ()),
+                                ('get_S', 'J/mol/K', ()), ('get_Cp', 'J/mol/K', ()), ('get_Cv', 'J/mol/K', ()),
+                                ('get_SoR', None, ('P',)), ('get_S', 'J/mol/K', ('P',)),
+                                ('get_CpoR', None, ('P', 'V'))):
+            kw_ = dict({'T': T2}, **{k_: D2.sym(k_) for k_ in extra})
             if units:
                 kw_['units'] = units
             with_refs = I2.call_method(sp, q, [], dict(kw_))
             without = I2.call_method(sp, q, [], dict(kw_, use_references=False))
             o3, f3 = repo.find_method(sci, q)
             ok = isinstance(with_refs, Rat) and isinstance(without, Rat) and same(with_refs, without)
-            run.check(ok, 'IDENT.zero', 'StatMech.' + q, 'references described by %s' % dtag,
+            run.check(ok, 'IDENT.zero', 'StatMech.' + q, 'references described by %s' % dtag
+                      + (', conditions T,%s' % ','.join(extra) if extra else ''),
                       'references change %s of a species by %s' % (q[4:], show(with_refs - without, 160) if isinstance(
                           with_refs, Rat) and isinstance(without, Rat) else show(with_refs, 120)), o3.module, f3)
 
@@ -517,9 +588,14 @@ def check(run, repo):
     fit_cases.append(((('A', 'B', 'C'), ('A', 'B', 'C'), ('A', 'B', 'C')), 'groups', False,
                       ([{'A': 1, 'B': 4, 'C': 1}, {'A': 2, 'B': 6, 'C': 2}, {'A': 3, 'B': 8, 'C': 3}], None,
                        'rank 2: AB4C|A2B6C2|A3B8C3')))
+    if run.tier == 'thorough':
+        # the upper end of the sizes the property names: 8 reference species over 5 descriptors (+ the history)
+        fit_cases.append(((('A', 'B'), ('B', 'C'), ('C', 'D'), ('D', 'E'), ('A', 'E'), ('A', 'B', 'C', 'D', 'E'),
+                           ('A', 'C', 'E'), ('B', 'D')), 'elements', False, None))
     # Names of the reference species (Reference.name; nothing in the property depends on them): the default of the
     # class - every species unnamed - or names that occur more than once (isomers, the same species from two sources)
-    shared = {'ref0': 'C3H6O', 'ref1': 'C3H6O', 'ref2': 'acetone', 'refX': 'C3H6O', 'refY': 'acetone', 'refZ': None}
+    shared = {'ref0': 'C3H6O', 'ref1': 'C3H6O', 'ref2': 'acetone', 'refX': 'C3H6O', 'refY': 'acetone', 'refZ': None,
+              'refW': 'acetone'}
     for case_no, (comps, dname, vary_T, concrete) in enumerate(fit_cases):
         I = Interp(repo)
         D = I.D
@@ -578,13 +654,23 @@ def check(run, repo):
         now = list(species)
         nf0 = len(run.findings)
 
-        def step(stage, method, kw_m, added=(), removed=None):
+        def step(stage, method, kw_m, added=(), removed=None, args=(), replaced=None):
             """one change of the reference set + refit.  Not run once the history of this case has produced findings:
             the set is then not what the rule's list says and what follows would only repeat that"""
             stages.append(label + stage)
             if len(run.findings) > nf0:
                 return 0
-            I.call_method(r, method, [], kw_m)
+            res = I.call_method(r, method, list(args), kw_m)
+            if isinstance(res, Raised):
+                # the change of the reference set itself failed: said here, not discovered through the next fit
+                o_m, f_m = repo.find_method(ci, method)
+                run.fail('PATH.refit', 'References.' + method, label + stage + ' ' + method,
+                         'References.%s(%s) with valid arguments raised %s: the reference set cannot be changed and '
+                         'fitted again' % (method, ', '.join([show(a_, 30) for a_ in args] + sorted(kw_m)), res.exc),
+                         o_m.module, f_m)
+                return 0
+            if replaced is not None:
+                now[replaced[0]] = replaced[1]
             now.extend(added)
             if removed is not None:
                 now.pop(removed)
@@ -608,8 +694,18 @@ def check(run, repo):
         if repo.find_method(ci, 'extend', missing_ok=True) is not None:
             more = [ref_species(I, repo, 'refY', ('A',), Tr, dname, name=pname('refY')),
                     ref_species(I, repo, 'refZ', ('B', 'A', 'E'), Tr, dname, name=pname('refZ'))]
-            n_fit += step(' extend+refit', 'extend', {'seq': ListV([s_.obj for s_ in more])}, more)
-    # 43 on this tree; without pop/remove/extend in the class 24
+            seq = ListV([s_.obj for s_ in more])
+            if case_no % 2:
+                seq.is_tuple = True         # any sequence of species will do: a list or a tuple
+            n_fit += step(' extend+refit', 'extend', {'seq': seq}, more)
+        # ... replacing a reference in place (refs[i] = species; the new one has a descriptor of its own)
+        if repo.find_method(ci, '__setitem__', missing_ok=True) is not None and len(now) > 1:
+            new_ = ref_species(I, repo, 'refW', ('B', 'F'), Tr, dname, name=pname('refW'))
+            n_fit += step(' setitem+refit', '__setitem__', {}, args=(C(1), new_.obj), replaced=(1, new_))
+        # ... and taking out a reference by its position (pop(0): the first, not the default last)
+        if repo.find_method(ci, 'pop', missing_ok=True) is not None and len(now) > 1:
+            n_fit += step(' pop(0)+refit', 'pop', {}, args=(C(0),), removed=0)
+    # 59 on this tree; without pop/remove/extend/__setitem__ in the class 24
     run.floor('fits of a reference set (construction, change + refit)', len(stages), 24)
     run.extra['fit_instances'] = n_fit
 
@@ -695,6 +791,71 @@ MUTANTS += [
      'edits': [(F_, '            try:\n                HoRT -= self.offset[descriptor] * coefficient',
                 '            if not isinstance(coefficient, (int, float)):\n                continue\n'
                 '            try:\n                HoRT -= self.offset[descriptor] * coefficient')]},
+]
+MUTANTS += [
+    {'name': 'wb3: references left out when a pressure is among the conditions', 'expect': ('REF.apply', 'StatMech'),
+     'edits': [(S_, '        if use_references and self.references is not None:',
+                '        if (use_references and self.references is not None\n'
+                '                and \'P\' not in specie_kwargs):')]},
+    {'name': 'wb3: the constructor keeps a tuple of the reference species (no append/extend/pop any more)',
+     'expect': ('PATH.refit', 'References.append'),
+     'edits': [(F_, '        self.references = references\n        self.descriptor = descriptor',
+                '        self.references = None if references is None else tuple(references)\n'
+                '        self.descriptor = descriptor')]},
+    {'name': 'wb3: extend validates a filter object in a loop and then extends with the exhausted iterator',
+     'expect': ('PATH.refit', 'fit_HoRT_offset'),
+     'edits': [(F_, '        self.references.extend(seq)',
+                '        new_references = filter(lambda obj: obj is not None, seq)\n'
+                '        for reference in new_references:\n'
+                '            if getattr(reference, self.descriptor, None) is None:\n'
+                '                raise ValueError(\'species without descriptors\')\n'
+                '        self.references.extend(new_references)')]},
+    {'name': 'wb3: refs[i] = species inserts the species instead of replacing the one at i',
+     'expect': ('PATH.refit', 'fit_HoRT_offset'),
+     'edits': [(F_, '        self.references[index] = reference', '        self.references.insert(index, reference)')]},
+    {'name': 'wb3: pop ignores the position it is given', 'expect': ('PATH.refit', 'fit_HoRT_offset'),
+     'edits': [(F_, '        self.references.pop(obj)', '        self.references.pop()')]},
+    {'name': 'wb3: extend concatenates lists only (a tuple of species is a TypeError)',
+     'expect': ('PATH.refit', 'References.extend'),
+     'edits': [(F_, '        self.references.extend(seq)', '        self.references = self.references + seq')]},
+    {'name': 'wb3: pop raises for its default position', 'expect': ('PATH.refit', 'References.pop'),
+     'edits': [(F_, '        self.references.pop(obj)', '        self.references.pop(len(self.references))')]},
+]
+MUTANTS += [
+    {'name': 'wb3: default reference temperature 273.15 K', 'expect': ('REF.apply', 'References.get_HoRT'),
+     'edits': [(F_, "                 T_ref=c.T0('K')):", "                 T_ref=273.15):")]},
+    {'name': 'wb3: verbose contributions list the misc models before the references', 'expect': ('REF.apply', 'StatMech'),
+     'edits': [(S_, '        quantity = np.concatenate([quantity, refs_quantity, misc_quantity])',
+                '        quantity = np.concatenate([quantity, misc_quantity, refs_quantity])')]},
+]
+# changes that only an exact model of Python/numpy shows (REQ3_C10: np.fromiter(dtype=int) truncates, objects with
+# __eq__ and no __hash__ are unhashable, a dictionary must not change size while it is iterated over)
+MUTANTS += [
+    {'name': 'wb3: a row of the descriptor matrix filled through np.fromiter(..., dtype=int)',
+     'expect': ('TYPE.int-buffer', ''),
+     'edits': [(F_, '            for j, descriptor_name in enumerate(descriptors):\n'
+                '                try:\n'
+                '                    descriptors_mat[i, j] = \\\n'
+                '                        getattr(reference,\n'
+                '                                self.descriptor)[descriptor_name]\n'
+                '                except KeyError:\n'
+                '                    # If descriptor not in dictionary\n'
+                '                    descriptors_mat[i, j] = 0.\n',
+                '            composition = getattr(reference, self.descriptor)\n'
+                '            descriptors_mat[i] = np.fromiter((composition.get(name, 0) for name in descriptors),\n'
+                '                                             dtype=int, count=len(descriptors))\n')]},
+    {'name': 'wb3: extend skips species already in the set through set(self.references) (unhashable objects)',
+     'expect': ('PATH.refit', 'References.extend'),
+     'edits': [(F_, '        self.references.extend(seq)',
+                '        present = set(self.references)\n'
+                '        self.references.extend(obj for obj in seq if obj not in present)')]},
+    {'name': 'wb3: conditions other than T deleted from the references\' arguments while iterating over them',
+     'expect': ('REF.apply', 'StatMech'),
+     'edits': [(S_, '            ref_kwargs = copy(specie_kwargs)\n',
+                '            ref_kwargs = copy(specie_kwargs)\n'
+                '            for key in ref_kwargs:\n'
+                '                if key != \'T\':\n'
+                '                    del ref_kwargs[key]\n')]},
 ]
 # armed by the run that finds the interpreter model they need (see arm(), REQ2_C10)
 PENDING_MUTANTS = [
